@@ -400,7 +400,8 @@ def r5_state_machine(ctx, f, rep, eff):
         rep.check(tr == want, 'C08-R5', b.nname, 'state %s, num_active %s -> %s' % (sorted(st or []), na, want or 'no transition'),
                   construct='adjust:%s:%s' % (sorted(st or []), na), facts={'transitions': tr})
     rep.floor('C08-R5', n, 5, 'adjust_connection_state paths')
-    for fn, want in (('Foca::become_connected', ['Foca::adjust_connection_state']),
+    for fn, want in (('Foca::adjust_connection_state', ['Foca::apply_many', 'Foca::handle_timer']),
+                     ('Foca::become_connected', ['Foca::adjust_connection_state']),
                      ('Foca::become_disconnected', ['Foca::adjust_connection_state']),
                      ('Foca::become_undead', ['Foca::handle_self_update', 'Foca::leave_cluster']),
                      ('Foca::reset', ['Foca::change_identity', 'Foca::reuse_down_identity'])):
